@@ -18,7 +18,13 @@ db8 <mode> <pseed> <nperm> <gen 0|1> <tag:hex>
                <missed_cleavages> <semi_enzymatic> <position 0..3> <nprot> <acc:hex>*}
        F <nfrag> [frag=1: {<peptide index> <f32 m/z>}*nfrag sorted]
        perm <orders tried> <orders that differ>  pool <pools tried> <pools that differ>  hash <rebuilds> <that differ>
+       ford <record orders> <pools> <rebuilds> whose fragment index AS STORED (vector order, bucket layout) differs
 ```
+The model proves and compares the fragment MULTISET; the order in which the index stores it (the outcome of two
+unstable sorts on ties) is not modelled. Since the code is deterministic given the peptide list, the stored index
+must nevertheless be the same for every record order, pool size and repeated build: the harness digests it in
+stored order and the spec demands equal digests (`bad:fragment_index_order_depends_on_fasta_order`,
+`bad:fragment_index_order_thread_dependent`; in `chunkdb` concatenation orders / chunk sizes count as input order).
 Comparison with the model is exact on every field (bit patterns; only `+` in a fixed order is involved).
 Spec verdicts (evaluated on the implementation's reply):
 `bad:fasta_order_dependent`, `bad:thread_dependent`, `bad:run_to_run_nondeterministic` (the implementation
@@ -148,6 +154,8 @@ structure ImplReply where
   perm : Nat × Nat
   pool : Nat × Nat
   hash : Nat × Nat
+  /-- record orders / pools / rebuilds whose fragment index AS STORED differs from the first build's -/
+  ford : Nat × Nat × Nat
 
 def kw (s : String) : P Unit := do
   let t ← tok
@@ -162,7 +170,8 @@ def implReply (frag : Bool) : P ImplReply := do
   kw "perm"; let p1 ← nat; let p2 ← nat
   kw "pool"; let t1 ← nat; let t2 ← nat
   kw "hash"; let h1 ← nat; let h2 ← nat
-  pure { peps, nfrag, frags, perm := (p1, p2), pool := (t1, t2), hash := (h1, h2) }
+  kw "ford"; let f1 ← nat; let f2 ← nat; let f3 ← nat
+  pure { peps, nfrag, frags, perm := (p1, p2), pool := (t1, t2), hash := (h1, h2), ford := (f1, f2, f3) }
 
 def sameEntry (a b : WPep) : Bool :=
   a.decoy == b.decoy && a.seq == b.seq && a.mods == b.mods && a.nterm == b.nterm && a.cterm == b.cterm &&
@@ -181,8 +190,8 @@ def handle (op : String) (args impl : List String) : Option Reply :=
     let statics : List (C06.Target × F) := (C06.validate r.statics).map fun tm => (tm.1, f32b tm.2)
     let implR : Option ImplReply := run (implReply r.frag) impl
     let echo : String := match implR with
-      | some i => s!"perm {i.perm.1} 0 pool {i.pool.1} 0 hash {i.hash.1} 0"
-      | none => "perm 0 0 pool 0 0 hash 0 0"
+      | some i => s!"perm {i.perm.1} 0 pool {i.pool.1} 0 hash {i.hash.1} 0 ford 0 0 0"
+      | none => "perm 0 0 pool 0 0 hash 0 0 ford 0 0 0"
     -- the model
     let built : Option (Cfg F × List (C05.Seq × C05.Seq)) := do
       let par ← r.enz.toParams
@@ -207,6 +216,9 @@ def handle (op : String) (args impl : List String) : Option Reply :=
           if i.perm.2 != 0 then "bad:fasta_order_dependent" else
           if i.pool.2 != 0 then "bad:thread_dependent" else
           if i.hash.2 != 0 then "bad:run_to_run_nondeterministic" else
+          -- the stored fragment index (vector order + bucket layout), compared by the harness as digests
+          if i.ford.1 != 0 then "bad:fragment_index_order_depends_on_fasta_order" else
+          if i.ford.2.1 != 0 || i.ford.2.2 != 0 then "bad:fragment_index_order_thread_dependent" else
           let out := i.peps.map ofW
           if !clSorted out then "bad:not_sorted_by_mass" else
           if !clProteinsSorted out then "bad:proteins_not_sorted_set" else
@@ -243,10 +255,11 @@ def handle (op : String) (args impl : List String) : Option Reply :=
     let r ← run request rest
     let vars : List (C06.Target × F) := (C06.validateVar r.vars).map fun tm => (tm.1, f32b tm.2)
     let statics : List (C06.Target × F) := (C06.validate r.statics).map fun tm => (tm.1, f32b tm.2)
-    let implR : Option (Nat × List WPep × List (Nat × Nat × Nat × Nat × Nat)) :=
+    let implR : Option (Nat × List WPep × List (Nat × Nat × Nat × Nat × Nat × Nat)) :=
       run (do
         kw "ok"; let pre ← nat; let peps ← list wpep; kw "T"
-        let per ← list (do let t ← nat; let n ← nat; let d ← nat; let b ← nat; let h ← nat; pure (t, n, d, b, h))
+        let per ← list (do
+          let t ← nat; let n ← nat; let d ← nat; let b ← nat; let h ← nat; let st ← nat; pure (t, n, d, b, h, st))
         pure (pre, peps, per)) impl
     let modelDb : Option (Nat × List (DbPep F)) := do
       let par ← r.enz.toParams
@@ -261,9 +274,12 @@ def handle (op : String) (args impl : List String) : Option Reply :=
     | some (pre, db) =>
       -- the digest of the listed (first) build is the harness' own; every other build must reproduce it
       let refDigest : Nat := match implR with
-        | some (_, _, (_, _, _, _, h) :: _) => h
+        | some (_, _, (_, _, _, _, h, _) :: _) => h
         | _ => 0
-      let per := threads.map fun t => s!"{t} {db.length} 0 0 {refDigest}"
+      let refStored : Nat := match implR with
+        | some (_, _, (_, _, _, _, _, st) :: _) => st
+        | _ => 0
+      let per := threads.map fun t => s!"{t} {db.length} 0 0 {refDigest} {refStored}"
       let model := s!"ok {pre} {outList renderW (db.map toW)} T {threads.length} {" ".intercalate per}"
       let spec : String :=
         match implR with
@@ -277,7 +293,8 @@ def handle (op : String) (args impl : List String) : Option Reply :=
           -- … and the per-pool facts reported by the harness
           if per.any (fun x => x.2.2.1 != 0) then "bad:duplicate_entry" else
           if per.any (fun x => x.2.2.2.1 != 0) then "bad:not_sorted_or_proteins_not_sorted_set" else
-          if per.any (fun x => x.2.1 != out.length || x.2.2.2.2 != refDigest) then "bad:thread_dependent" else
+          if per.any (fun x => x.2.1 != out.length || x.2.2.2.2.1 != refDigest) then "bad:thread_dependent" else
+          if per.any (fun x => x.2.2.2.2.2 != refStored) then "bad:fragment_index_order_thread_dependent" else
           if out.length != db.length || !((peps.zip (db.map toW)).all fun (a, b) => sameEntry a b) then
             "bad:differs_from_proven_model"
           else "ok"
@@ -289,17 +306,18 @@ def handle (op : String) (args impl : List String) : Option Reply :=
     let r ← run request rest
     let vars : List (C06.Target × F) := (C06.validateVar r.vars).map fun tm => (tm.1, f32b tm.2)
     let statics : List (C06.Target × F) := (C06.validate r.statics).map fun tm => (tm.1, f32b tm.2)
-    let implR : Option (List WPep × Nat × List (Nat × Nat) × (Nat × Nat) × (Nat × Nat) × (Nat × Nat)) :=
+    let implR : Option (List WPep × Nat × List (Nat × Nat) × (Nat × Nat) × (Nat × Nat) × (Nat × Nat) × (Nat × Nat × Nat)) :=
       run (do
         kw "ok"; let peps ← list wpep; kw "F"; let nfrag ← nat
         let frags ← if r.frag then listN (do let i ← nat; let m ← nat; pure (i, m)) nfrag else pure []
         kw "shuf"; let s1 ← nat; let s2 ← nat
         kw "pool"; let t1 ← nat; let t2 ← nat
         kw "ksz"; let k1 ← nat; let k2 ← nat
-        pure (peps, nfrag, frags, (s1, s2), (t1, t2), (k1, k2))) impl
+        kw "ford"; let f1 ← nat; let f2 ← nat; let f3 ← nat
+        pure (peps, nfrag, frags, (s1, s2), (t1, t2), (k1, k2), (f1, f2, f3))) impl
     let echo : String := match implR with
-      | some (_, _, _, sh, pl, ks) => s!"shuf {sh.1} 0 pool {pl.1} 0 ksz {ks.1} 0"
-      | none => "shuf 0 0 pool 0 0 ksz 0 0"
+      | some (_, _, _, sh, pl, ks, _) => s!"shuf {sh.1} 0 pool {pl.1} 0 ksz {ks.1} 0 ford 0 0 0"
+      | none => "shuf 0 0 pool 0 0 ksz 0 0 ford 0 0 0"
     let built : Option (Cfg F × List (C05.Seq × C05.Seq) × List (List (DbPep F))) := do
       let par ← r.enz.toParams
       let targets ← C05.parse r.tag r.gen (fastaText r.recs)
@@ -322,11 +340,14 @@ def handle (op : String) (args impl : List String) : Option Reply :=
       let spec : String :=
         match implR with
         | none => if impl == ["panic"] then "na" else "bad:reply_unreadable"
-        | some (peps, _, _, sh, pl, ks) =>
+        | some (peps, _, _, sh, pl, ks, fo) =>
           if kfree && !kfreeOk then "bad:request_claims_chunk_size_independence_wrongly" else
           if sh.2 != 0 then "bad:concatenation_order_dependent" else
           if pl.2 != 0 then "bad:thread_dependent" else
           if ks.2 != 0 then "bad:chunk_size_dependent" else
+          -- the stored fragment index: same canonical peptide list => same stored index
+          if fo.1 != 0 || fo.2.2 != 0 then "bad:fragment_index_order_depends_on_fasta_order" else
+          if fo.2.1 != 0 then "bad:fragment_index_order_thread_dependent" else
           let out := peps.map ofW
           if !clSorted out then "bad:not_sorted_by_mass" else
           if !clProteinsSorted out then "bad:proteins_not_sorted_set" else
